@@ -21,6 +21,10 @@
      free <j>                          Crystal_Free(objs[j])
      afree <i>                         Crystal_ArrayFree(arrs[i])
      scrib <j> <xbits>                 the caller overwrites every field it can reach through objs[j] (in place)
+     addmany <arr> <count> <seed>      bulk: Crystal_AddCrystal of the generated crystals 0..count-1 of family <seed> (`gen_many`), one by one;
+                                       answers `ret=<number accepted>/<index of the first refused one, -1 if none>` and the error of the first refusal
+     readmany <arr> <k> <n> <seed>     bulk: Crystal_ReadFile("<dir>/f<k>.dat", arr); the file was written by props/c14.py and holds the
+                                       generated crystals 0..n-1 of family <seed> in the syntax of data/Crystals.dat
    <arr> = B (NULL: built-in) | A<i> ;  <src> = N (NULL) | O<j> | L <crystal>
    <crystal> = name a b c alpha beta gamma volume natoms {Z fraction x y z}
    A literal is built by the caller on the heap (struct, strdup'd name, atom vector) and released with Crystal_Free
@@ -166,6 +170,26 @@ static void dump_builtin(void) {
   }
 }
 
+/* the crystal number i of the generated family `seed` (bulk operations).  Pure integer arithmetic and dyadic fractions, so that the
+   Lean driver (Driver.lean: genMany), props/c14.py (gen_many) and this function produce bit-identical doubles, and the decimal text of
+   a generated file converts back exactly.  Names are pairwise different for i < 10007 and NOT in insertion order. */
+static Crystal_Struct *gen_many(unsigned seed, unsigned i) {
+  Crystal_Struct *c = malloc(sizeof(Crystal_Struct)); unsigned perm = (i * 7919u + 13u * seed) % 10007u, j, n = 1 + i % 4; char nm[64];
+  snprintf(nm, sizeof nm, "M%u_%05u", seed % 1000u, perm);
+  c->name = strdup(nm);
+  c->a = 3 + perm % 11 + 0.25 * (i % 4); c->b = 4 + 0.5 * (i % 7); c->c = 5 + perm % 5;
+  if (perm % 3 == 0) { c->alpha = 90; c->beta = 90; c->gamma = 90; }
+  else if (perm % 3 == 1) { c->alpha = 90; c->beta = 90; c->gamma = 120; }
+  else { c->alpha = 80 + i % 15; c->beta = 85 + perm % 9; c->gamma = 95 + i % 11; }
+  c->volume = 0; c->n_atom = (int)n;
+  c->atom = malloc(n * sizeof(Crystal_Atom));
+  for (j = 0; j < n; j++) {
+    c->atom[j].Zatom = (int)(1 + (perm + 13 * j) % 92); c->atom[j].fraction = (j % 2) ? 0.5 : 1.0;
+    c->atom[j].x = ((i + j) % 8) / 8.0; c->atom[j].y = (perm % 4) / 4.0; c->atom[j].z = (j % 2) * 0.5;
+  }
+  return c;
+}
+
 static int run_history(const char *hist_path, const char *files_dir);
 
 int main(int argc, char **argv) {
@@ -213,6 +237,24 @@ static int run_history(const char *hist_path, const char *files_dir) {
       Crystal_Struct *lit; Crystal_Struct *s = src_of(tok + 2, &lit);
       int r = Crystal_AddCrystal(s, arr_of(tok[1]), &e);
       if (lit) Crystal_Free(lit);
+      printf(" ret=%d", r);
+    } else if (!strcmp(tok[0], "addmany")) {
+      unsigned count = (unsigned)strtoul(tok[2], NULL, 10), seed = (unsigned)strtoul(tok[3], NULL, 10), i; int added = 0, first = -1, silent = 0;
+      Crystal_Array *a = arr_of(tok[1]);
+      for (i = 0; i < count; i++) {
+        xrl_error *e1 = NULL; Crystal_Struct *lit = gen_many(seed, i);
+        int r = Crystal_AddCrystal(lit, a, &e1);
+        Crystal_Free(lit);
+        if (r == 1 && e1 == NULL) added++;
+        else if (first < 0) { first = (int)i; e = e1; e1 = NULL; silent = (e == NULL); }
+        if (e1) xrl_clear_error(&e1);
+      }
+      printf(" ret=%d/%d", added, first);
+      if (silent) { printf(" err=0:(refused without an error object)\n"); observe(); continue; }
+    } else if (!strcmp(tok[0], "readmany")) {
+      char path[4096]; int r;
+      snprintf(path, sizeof path, "%s/f%s.dat", argv[2], tok[2]);
+      r = Crystal_ReadFile(path, arr_of(tok[1]), &e);
       printf(" ret=%d", r);
     } else if (!strcmp(tok[0], "read")) {
       char path[4096]; int r;
